@@ -27,6 +27,21 @@ import (
 )
 
 // feat is one point of the template space.
+// unkOIDs rotates the OIDs of the two unknown extensions over the other factors, so that every
+// neighbour OID meets every value of every other factor somewhere.
+func unkOIDs(f feat) (crit, non []int) {
+	i := f.Val + 3*f.Serial + 5*f.Key + 7*f.Bc + 11*f.San + f.Enc
+	non = unkNeighbours[i%len(unkNeighbours)]
+	crit = unkNeighbours[(i+4)%len(unkNeighbours)]
+	if i%len(unkNeighbours) == 0 {
+		crit = oidUnkCrit
+	}
+	if fmt.Sprint(crit) == fmt.Sprint(non) {
+		crit = oidUnkCrit
+	}
+	return
+}
+
 type feat struct {
 	Subj    bool `json:"multi_valued_subject"`
 	San     int  `json:"san_mask"` // dns=1 email=2 ip=4 uri=8
@@ -93,10 +108,15 @@ var (
 	oidPolicyPriv  = []int{1, 3, 6, 1, 4, 1, 55555, 2, 1}
 	oidUnkCrit     = []int{1, 3, 6, 1, 4, 1, 55555, 9, 1}
 	oidUnkNon      = []int{1, 3, 6, 1, 4, 1, 55555, 9, 2}
-	unkCritVal     = der.Seq(der.Int(7), der.UTF8("critical payload"))
-	unkNonVal      = der.OctetString([]byte{1, 2, 3})
+	// unknown extensions also sit right next to known ones: one arc below a known id-ce / id-pe / CT
+	// extension, an unassigned id-ce number, the id-ce arc itself (exact-OID dispatch, not prefix dispatch)
+	unkNeighbours = [][]int{{1, 3, 6, 1, 4, 1, 55555, 9, 2}, {2, 5, 29, 19, 1}, {2, 5, 29, 17, 1}, {2, 5, 29, 14, 2, 1}, {2, 5, 29, 99}, {2, 5, 29},
+		{1, 3, 6, 1, 5, 5, 7, 1, 1, 1}, {1, 3, 6, 1, 4, 1, 11129, 2, 4, 2, 1}, {2, 5, 29, 15, 0}, {2, 5, 29, 37, 1}, {2, 5, 29, 35, 1}}
+	unkCritVal = der.Seq(der.Int(7), der.UTF8("critical payload"))
+	unkNonVal  = der.OctetString([]byte{1, 2, 3})
 
-	oidNC     = []int{2, 5, 29, 30}
+	oidNC = []int{2, 5, 29, 30}
+
 	oidPol    = []int{2, 5, 29, 32}
 	oidCRLDP  = []int{2, 5, 29, 31}
 	oidAIA    = []int{1, 3, 6, 1, 5, 5, 7, 1, 1}
@@ -228,7 +248,8 @@ func derExts(f feat) []pki.Ext {
 		e = append(e, pki.Ext{OID: pki.OIDBasicConstraints, Critical: true, Value: der.Seq(der.Bool(true), der.Int(3))})
 	}
 	if f.UnkNon {
-		e = append(e, pki.Ext{OID: oidUnkNon, Value: unkNonVal})
+		_, non := unkOIDs(f)
+		e = append(e, pki.Ext{OID: non, Value: unkNonVal})
 	}
 	if f.Ku {
 		e = append(e, pki.Ext{OID: pki.OIDKeyUsage, Critical: true, Value: der.BitString([]byte{0x86, 0x80}, 7)})
@@ -292,7 +313,8 @@ func derExts(f feat) []pki.Ext {
 		e = append(e, pki.ExtAKI(akiBytes))
 	}
 	if f.UnkCrit {
-		e = append(e, pki.Ext{OID: oidUnkCrit, Critical: true, Value: unkCritVal})
+		crit, _ := unkOIDs(f)
+		e = append(e, pki.Ext{OID: crit, Critical: true, Value: unkCritVal})
 	}
 	return e
 }
@@ -432,10 +454,12 @@ func buildStd(f feat) *built {
 		parent.SubjectKeyId = akiBytes
 	}
 	if f.UnkCrit {
-		t.ExtraExtensions = append(t.ExtraExtensions, spkix.Extension{Id: oidUnkCrit, Critical: true, Value: unkCritVal})
+		crit, _ := unkOIDs(f)
+		t.ExtraExtensions = append(t.ExtraExtensions, spkix.Extension{Id: crit, Critical: true, Value: unkCritVal})
 	}
 	if f.UnkNon {
-		t.ExtraExtensions = append(t.ExtraExtensions, spkix.Extension{Id: oidUnkNon, Value: unkNonVal})
+		_, non := unkOIDs(f)
+		t.ExtraExtensions = append(t.ExtraExtensions, spkix.Extension{Id: non, Value: unkNonVal})
 	}
 	d, err := sx.CreateCertificate(zeroReader{}, t, parent, k.Priv.Public(), signer.Priv)
 	if err != nil {
